@@ -73,6 +73,18 @@ def run(ctx):
             defs_ = [s_.value for s_ in walk_no_nested(f.node) if isinstance(s_, ast.Assign) and len(s_.targets) == 1 and isinstance(s_.targets[0], ast.Name) and s_.targets[0].id == inc_.id]
             inc_ = defs_[0] if len(defs_) == 1 else inc_
         ctx.ob("R-ORDER", "C10.1", f, "counter grows by the number of points in the batch (x.size)", inc_ is not None and src(inc_) in (f"{xname}.size", f"len({xname})", f"{xname}.shape[0]"), f"`{fa.text(aug[0]) if aug else None}`")
+    # ... and "once" includes what it calls: a counting evaluator reaches no other writer of the counter (an evaluator
+    # that delegates a special case to its sibling and then falls through to its own increment counts those points twice)
+    from ..callgraph import callgraph as _cgf
+    import networkx as _nx
+
+    g_, _unres = _cgf(prog)
+    ctx.require(ctx.fn(f"{M}.batch_evaluate_log_likelihood").qual in g_, "batch_evaluate_log_likelihood missing from the call graph")
+    writers_ = {f_.qual for f_, _n, _k in sites}
+    for name in ("evaluate_log_likelihood", "batch_evaluate_log_likelihood"):
+        f = ctx.fn(f"{M}.{name}")
+        reach_ = (_nx.descendants(g_, f.qual) if f.qual in g_ else set()) & writers_
+        ctx.ob("R-ORDER", "C10.1", f, "a counting evaluator calls nothing that also writes the counter (each point is counted by exactly one increment)", not reach_, f"reaches {sorted(q_.split(':')[-1] for q_ in reach_)}")
     # the callables handed to the batch evaluator do not count
     for q in (M + ".log_likelihood", MP + ":log_likelihood_wrapper"):
         f = ctx.fn(q)
